@@ -19,6 +19,7 @@ Inductive import_outcome (F : Type) := INotFound | IBroken (msg : text) | IFound
 Arguments INotFound {F}. Arguments IBroken {F} msg. Arguments IFound {F} f.
 
 Record env := {
+  registry : list reg_pel;
   comp_name : text -> text -> option text;                                   (* creator id, "%04X" component -> registry name *)
   ud_import : text -> import_outcome (N -> N -> bytes -> plugin_result);     (* module name -> parseUDToJson(subtype, version, data) *)
   src_import : text -> import_outcome (text -> list text -> plugin_result);  (* module name -> parseSRCToJson(refcode, w2..w9) *)
@@ -317,6 +318,98 @@ Definition src_details (e : env) (creator : text) (ascii : text) (ws : list text
   | _ => Some []
   end.
 
+(* ---- registry: getErrorMessage / buildMessage / buildHexwordDescs ---- *)
+Definition reg_find (reg : list reg_pel) (code ty : text) : option reg_pel :=
+  List.find (fun p => match r_reason p with
+                      | None => false
+                      | Some rc => text_eqb ty (match r_type p with Some t => t | None => L "BD" end) && substrb code rc
+                      end) reg.
+
+(* hex(int): "0x" + lower-case digits, no padding *)
+Definition py_hex (v : N) : text := L "0x" ++ hexL 1 v.
+
+(* Python list indexing with a possibly negative index *)
+Definition py_index (ws : list N) (i : Z) : option N :=
+  let n := Z.of_nat (length ws) in
+  if (0 <=? i)%Z && (i <? n)%Z then nth_error ws (Z.to_nat i)
+  else if (i <? 0)%Z && (0 <=? n + i)%Z then nth_error ws (Z.to_nat (n + i))
+  else None.
+
+Definition digit_val (c : N) : option Z := if (48 <=? c) && (c <=? 57) then Some (Z.of_N (c - 48)) else None.
+
+(* int(arg[-1]) - 2 : the last character must be an ASCII digit (other Unicode digits are outside the model) *)
+Definition arg_word (ws : list N) (arg : text) : option N :=
+  match rev arg with
+  | c :: _ => match digit_val c with Some d => py_index ws (d - 2)%Z | None => None end
+  | [] => None
+  end.
+
+(* re.sub(r'%[1-9]', '{}', message) followed by str.format with the argument list: every %N takes the NEXT argument;
+   a brace in the message, or too few arguments, raises *)
+Fixpoint fill_message (msg : text) (args : list text) : option text :=
+  match msg with
+  | [] => Some []
+  | c :: t =>
+      if (c =? 123) || (c =? 125) then None
+      else if c =? 37 then
+        match t with
+        | d :: t' => if (49 <=? d) && (d <=? 57) then
+                       match args with
+                       | a :: args' => option_map (app a) (fill_message t' args')
+                       | [] => None
+                       end
+                     else option_map (cons c) (fill_message t args)
+        | [] => Some [c]
+        end
+      else option_map (cons c) (fill_message t args)
+  end.
+
+Definition build_message (ws : list N) (p : reg_pel) : option text :=
+  match r_args p with
+  | None => Some (r_message p)
+  | Some srcs =>
+      match all_some (map (arg_word ws) srcs) with
+      | Some vals => fill_message (r_message p) (map py_hex vals)
+      | None => None
+      end
+  end.
+
+Definition word_num (t : text) : option Z :=
+  match t with [c] => digit_val c | _ => None end.     (* int("6") ; multi-character keys are outside the model *)
+
+Fixpoint hexword_descs (ws : list N) (l : list reg_word) (acc : list (text * json)) : option (list (text * json)) :=
+  match l with
+  | [] => Some acc
+  | w :: t =>
+      match rw_desc w with
+      | None => hexword_descs ws t acc
+      | Some d =>
+          match word_num (rw_num w) with
+          | Some n => match py_index ws (n - 2)%Z with
+                      | Some v => hexword_descs ws t (obj_set acc (rw_source w) (JArr [jn v; js d]))
+                      | None => None
+                      end
+          | None => None
+          end
+      end
+  end.
+
+(* None = an exception escapes; Some [] = no "Error Details" *)
+Definition error_details (e : env) (ws : list N) (ascii : text) : option (list (text * json)) :=
+  match reg_find (registry e) (L "0x" ++ firstn 4 (skipn 4 ascii)) (firstn 2 ascii) with
+  | None => Some []
+  | Some p =>
+      match build_message ws p with
+      | None => None
+      | Some [] => Some []
+      | Some m =>
+          match hexword_descs ws (r_words p) [] with
+          | Some ds => Some [(L "Error Details", JObj (obj_update [(L "Message", js m)] ds))]
+          | None => None
+          end
+      end
+  end.
+
 Definition render_src (e : env) (c : config) (h : shdr) (creator : text) (s : src_t) : option (list (text * json)) :=
   match utf8_decode (s_ascii s) with
   | None => None
@@ -326,6 +419,9 @@ Definition render_src (e : env) (c : config) (h : shdr) (creator : text) (s : sr
     let is_hb := text_eqb ty SRCType_hostbootError in
     let w := fun i => nth i (s_words s) 0 in
     let ws := src_hexwords s in
+    match (if is_bmc_src || is_hb then error_details e (s_words s) ascii else Some []) with
+    | None => None
+    | Some ed =>
     let head :=
       base_fields e h creator (L "Created by") ++
       [(L "SRC Version", js (L "0x" ++ hex2L (s_version s)));
@@ -339,6 +435,7 @@ Definition render_src (e : env) (c : config) (h : shdr) (creator : text) (s : sr
       (if is_bmc_src || is_hb then
          [(L "Deconfigured", tf (has (w 3%nat) ErrorStatusFlags_deconfigured));
           (L "Guarded", tf (has (w 3%nat) ErrorStatusFlags_guarded))] else []) ++
+      ed ++
       [(L "Valid Word Count", js (x0 2 (s_wcount s)));
        (L "Reference Code", js (strip_ws ascii))] ++
       numbered_words 2 ws in
@@ -355,6 +452,7 @@ Definition render_src (e : env) (c : config) (h : shdr) (creator : text) (s : sr
           | None => None
           end
         else Some (head ++ co)
+    end
     end
   end.
 
